@@ -107,6 +107,47 @@ pub fn check_bytes(bytes: &[u8], st: &mut Stats, decoded: &dyn Fn() -> String) -
             return Ok(());
         }
     };
+    // F2: a typed literal consumer that the layout hoists in front of the instruction its
+    // type information comes from (e.g. OpSpecConstant whose result type is a function id
+    // typed by OpFunction's result type): the output re-parses with another literal width.
+    if let Some(order) = &order {
+        let lit_type = |ri: &RInst| -> Option<u32> {
+            match ri.opname.as_str() {
+                "Constant" | "SpecConstant" => ri.rtype,
+                "Switch" => ri.ops.first().map(|o| o.words[0]),
+                _ => None,
+            }
+        };
+        let widths = |seq: &mut dyn Iterator<Item = usize>| -> std::collections::HashMap<usize, LitW> {
+            let mut tc = TyCtx::new();
+            let mut m = std::collections::HashMap::new();
+            for i in seq {
+                let ri = &rp.insts[i];
+                if let Some(t) = lit_type(ri) {
+                    m.insert(i, tc.lit_words(t));
+                }
+                let skip = ri.rtype.is_some() as usize + ri.rid.is_some() as usize;
+                let w = bytes_to_words(&bytes[ri.start + 4..ri.start + ri.wc * 4]);
+                tc.track(&ri.opname, ri.rtype, ri.rid, &w[skip.min(w.len())..]);
+            }
+            m
+        };
+        let a = widths(&mut (0..rp.insts.len()));
+        let b = widths(&mut order.iter().copied());
+        if let Some((i, _)) = a.iter().find(|(i, w)| b.get(*i) != Some(*w)) {
+            return Err(wrap(Fail::new(
+                "reorder-changes-literal-width",
+                rp.insts[*i].opname.clone(),
+                format!(
+                    "instruction #{} (Op{}) takes its literal width from an instruction that the logical layout places after it: the assembled output re-parses it with a different width ({:?} vs {:?})",
+                    i + 1,
+                    rp.insts[*i].opname,
+                    a.get(i),
+                    b.get(i)
+                ),
+            )));
+        }
+    }
     match &order {
         Some(order) => {
             if out_insts.len() != order.len() {
@@ -253,15 +294,34 @@ fn sub_sweep(input: &[u8], st: &mut Stats) -> R {
     Ok(())
 }
 
+/// hand-minimised inputs
+fn sub_fixed(input: &[u8], st: &mut Stats) -> R {
+    let k = idx(input);
+    let mut w = header_words((1, 0), 10);
+    match k {
+        0 => {
+            // F2: %1 = OpTypeInt 64 0; %2 = OpFunction %1 None %8; OpFunctionEnd; %4 = OpSpecConstant %2 <64-bit>
+            w.extend([0x0004_0015, 1, 64, 0]);
+            w.extend([0x0005_0036, 1, 2, 0, 8]);
+            w.extend([0x0001_0038]);
+            w.extend([0x0005_0032, 2, 4, 0, 0]);
+        }
+        _ => return Ok(()),
+    }
+    check_bytes(&words_to_bytes(&w), st, &|| format!("fixed input #{}", k))
+}
+
 pub const SUBS: &[Sub] = &[
+    Sub { name: "fixed", f: sub_fixed },
     Sub { name: "sweep", f: sub_sweep },
     Sub { name: "modules", f: sub_modules },
 ];
 
 pub fn run(ctx: &Ctx) {
     run_regress(ctx, SUBS);
-    drive_enum(ctx, &SUBS[0], sweep::cases().len() as u64);
-    drive_random(ctx, &SUBS[1], ctx.n(40_000, 20_000_000), 1600);
+    drive_enum(ctx, &SUBS[0], 1);
+    drive_enum(ctx, &SUBS[1], sweep::cases().len() as u64);
+    drive_random(ctx, &SUBS[2], ctx.n(40_000, 20_000_000), 1600);
     if !ctx.quick() && !ctx.failed() {
         crate::fuzzing::drive_fuzz(ctx, "modules", 300_000);
     }
